@@ -84,6 +84,22 @@ def corpus(tier):
         for typ in ('P', 'F'):
             out.append(cell_plan('race', 'fast', 'pierce_fast', 'both', 'clear', typ=typ, direct_delay=0.02,
                                  indirect_delay=0.02 - 0.010, hops=hops))
+    # the pierced connection is announced to a slow application listener; meanwhile the (slow) direct attempt wins the race,
+    # or the caller gives up
+    for typ in ('P', 'F'):
+        for slow in (1.0, 6.0):
+            out.append(cell_plan('race', 'slow', 'pierce_fast', 'both', 'clear', typ=typ, slow_init=slow))
+            for mode in MODES:
+                out.append(cell_plan(mode, 'blackhole', 'pierce_fast', 'both', 'clear', typ=typ, slow_init=slow,
+                                     cancel={'after': 'pierce_accepted', 'plus_iter': 0, 'time': 0.0}))
+                out.append(cell_plan(mode, 'refused', 'pierce_fast', 'both', 'clear', typ=typ, slow_init=slow,
+                                     cancel={'after': 'time', 'plus_iter': 0, 'time': 0.5}))
+    # a port that does not fit 16 bits in the address the server hands out, every indirect outcome
+    for mode in MODES:
+        for indirect in INDIRECT:
+            for port in (70000, 2 ** 32 - 1):
+                for typ in ('P', 'F'):
+                    out.append(cell_plan(mode, 'fast', indirect, 'both', 'clear', typ=typ, bad_port=port))
     # the pierce arrives in the instant in which the wait for it expires, swept over loop iterations and 1 ns around it
     for mode in MODES:
         for hops in range(0, 7):
@@ -158,6 +174,10 @@ def generate(rng, index, tier):
         plan['edge_ulps'] = rng.choice([-3, -2, -1, 0, 1, 2, 3]) if plan['edge_offset'] == 0.0 else 0
         plan['hops'] = rng.randint(0, 6)
     plan['explicit_addr'] = rng.random() < (0.5 if indirect in ('server_dead', 'server_send_fails') else 0.1)
+    if rng.random() < 0.1:
+        plan['slow_init'] = rng.choice([0.3, 1.0, 6.0])
+    if rng.random() < 0.06 and not plan['explicit_addr']:
+        plan['bad_port'] = rng.choice([65536, 70000, 2 ** 32 - 1])
     plan['second_call'] = rng.random() < 0.15
     if rng.random() < 0.15:
         plan['cancel'] = {'after': rng.choice(('get_peer_address', 'connect_started', 'peer_init_written',
@@ -220,6 +240,11 @@ def _run_request(world: World, plan):
     typ = plan['typ']
     direct, indirect = plan['direct'], plan['indirect']
     state = {'direct_attempts': [], 'pierce_links': [], 'relay': [], 'cancel_fired': False}
+    if plan.get('bad_port'):
+        # the server hands out a port that does not fit 16 bits (ports are uint32 on the wire): no socket takes it, the
+        # direct path cannot work
+        world.net.fired['address_with_bad_port'] += 1
+        server.addresses['bob'] = (bob.host.ip, int(plan['bad_port']), 0)
 
     # --- direct behaviour -------------------------------------------------
     def reset_server_link():
@@ -366,6 +391,16 @@ def _run_request(world: World, plan):
                                       getattr(getattr(getattr(event.connection, '_writer', None), 'transport', None), 'conn', None)))
     alice.recorder.hooks.append(on_event)
 
+    if plan.get('slow_init'):
+        # an application listener that takes its time when a connection the peer opened (the pierced one) is announced:
+        # the request can stop waiting (the other attempt wins, the caller gives up) while it is suspended
+        async def slow_init(event):
+            if event.connection.incoming:
+                world.net.fired['slow_listener_on_pierced_connection'] += 1
+                await asyncio.sleep(float(plan['slow_init']))
+        world.keep_alive.append(slow_init)
+        client.events.register(PeerInitializedEvent, slow_init, priority=2000)
+
     # --- cancellation triggers --------------------------------------------------
     cancel = plan.get('cancel')
 
@@ -493,7 +528,7 @@ def _run_request(world: World, plan):
     # ------------------------------------------------------------------ oracle
     server_up = indirect not in ('server_dead', 'server_send_fails')
     have_addr = plan['ports'] != 'none' and (plan.get('explicit_addr') or server_up)
-    direct_works = have_addr and direct in ('fast', 'slow')
+    direct_works = have_addr and direct in ('fast', 'slow') and not (plan.get('bad_port') and not plan.get('explicit_addr'))
     indirect_works = server_up and indirect in ('pierce_fast', 'pierce_slow')
     facts = {'mode': plan['mode'], 'direct': direct, 'indirect': indirect}
     if plan['ports'] == 'none':
@@ -522,6 +557,11 @@ def _run_request(world: World, plan):
                 world.violate('C11.wrong_exception', **facts, got=type(c.exception).__name__)
             elif indirect == 'pierce_edge' and not direct_works:
                 world.probe('pierce_in_the_instant_of_the_deadline_lost')
+            elif plan.get('slow_init') and indirect == 'pierce_slow' and not direct_works and \
+                    float(plan.get('indirect_delay') or 0.0) + float(plan['slow_init']) > INDIRECT_TIMEOUT - 5.0:
+                # the pierced connection was there in time but the application's listener held its announcement beyond
+                # the deadline of the request: a timeout is a timeout
+                world.probe('pierce_announced_after_the_deadline_by_slow_listener')
             elif direct_works or indirect_works:
                 # fallback mode only reaches the indirect path after the direct one failed - still must succeed
                 world.violate('C11.should_succeed', **facts)
@@ -561,7 +601,7 @@ def _run_request(world: World, plan):
 
     # port choice is also visible on every direct attempt
     want_port, want_obf = expected_port(plan['ports'], plan['prefer'], bob)
-    if not plan.get('explicit_addr'):
+    if not plan.get('explicit_addr') and not plan.get('bad_port'):
         for att in state['direct_attempts']:
             if want_port is not None and att['port'] != want_port:
                 world.violate('C11.port_choice', ports=plan['ports'], prefer=plan['prefer'],
